@@ -57,9 +57,12 @@ func verifC08_e2e() {
 	client := vParam("client", 1) == 1
 	vInstallRand()
 	maxL := vParam("maxL", 3)
-	L := vChoose("L", maxL+2) - 1 // -1 = unlimited
-	n := vChoose("n", maxL+3)
 	useDefault := vParam("default", 0) == 1
+	L, n := 0, 0
+	if !useDefault {
+		L = vChoose("L", maxL+2) - 1 // -1 = unlimited
+		n = vChoose("n", maxL+3)
+	}
 	if useDefault {
 		// the documented default: no SetReadLimit call at all; sizes around 32768
 		L = 32768
@@ -87,7 +90,12 @@ func verifC08_e2e() {
 	var cuts []int
 	if len(payload) > 0 && vChoose("frag", 2) == 1 {
 		// (a BFINAL=1 stream ending exactly at the end of a non-final frame is C03.deflate's subject)
-		cuts = []int{vChoose("cutAt", len(payload))}
+		if useDefault {
+			// at real sizes the cut comes from a few representative places, not from every offset
+			cuts = []int{[]int{1, len(payload) / 2, len(payload) - 1}[vChoose("cutAtIdx", 3)]}
+		} else {
+			cuts = []int{vChoose("cutAt", len(payload))}
+		}
 	}
 	frames := vDataFrames(payload, cuts, 2, compressed, client)
 	// a second, small message follows so that "delivered in full" includes leaving the stream usable
